@@ -49,6 +49,7 @@ from fractions import Fraction as F
 import common
 from common import err_kind
 import props.c02_tr as tr
+import props.c02_hist as hist
 
 ID = "C02"
 RULE = ("every registry stage x >=3 parameter sets x 3 source modes (finite+slack, exact+trip-wire, endless), "
@@ -62,6 +63,12 @@ RULE = ("every registry stage x >=3 parameter sets x 3 source modes (finite+slac
         "(positional / keyword / defaults) and 4 kinds of head source object, drained stages asked twice past the end, plus 13 "
         "two-source constructors (map / zip / chain / zip_longest objects) over all source lengths 0..2 x 0..2 and random 0..9, "
         "asked up to 14 times with a counter on both sources; "
+        "plus HISTORIES (`hist` entry, harness/props/c02_hist.py): 14 scenarios of stages that are handed a new source / asked for "
+        "a new copy WHILE they are consumed (Streamix.add before, during and after playback with delta 0 / inside / beyond the samples "
+        "taken, int / float / Fraction deltas, keep or not; Stream.append on a partially consumed stream; filters and maverage called "
+        "again; Stream.copy / StreamTeeHub.copy / thub over a partially consumed stream; ControlStream assignments between reads), "
+        "3-20 events, counting / raising (allowance from the Lean spec, raised before every event) / endless / empty sources, the pull "
+        "counter of EVERY source recorded after EVERY event, plus the small universe add-after-a-outputs x delta x length x keep; "
         "plus, outside the cases, the source translator: regenerated Gen/C02Src.lean must equal the committed text and 13 "
         "edited source texts (swapped comparison, changed constant, reordered loops, dropped loop, eager list(), extra read) must "
         "each change the translation or fail to translate; "
@@ -93,6 +100,11 @@ TRUSTED = [
     "objects (next(a) then next(b), nothing remembered after a StopIteration: the first source is read again at every request "
     "past the end), itertools.chain and zip_longest are modelled from their C source; Stream binary operators on two streams, "
     "imap, izip, xzip, append, chain, chain.star, Stream(a, b), izip.longest are measured against them",
+    "histories (`hist` entry, Model/C02Hist.lean): stage-level machines written from the code - the mixer as an abstraction of the "
+    "generator of lazy_stream.py:689-733 with ABSOLUTE event times (sum of the deltas; the harness sends dyadic deltas so that the "
+    "float `count` of the code is exact), `itertools.chain` nesting for append, `itertools.tee` for copy / StreamTeeHub (a copy starts "
+    "where the branch it is taken from stands; every StreamTeeHub copy starts where the hub was made); that `_iters.pop()` / "
+    "`_iters[0]` are untouched branches is read from the code, not proved; a failed `next` on an exhausted source is not a pull",
     "count spellings: Python's round (half to even) for limit / skip, audiolazy's rint (half away from zero) for take / peek, "
     "int(dur + .5) for attack are re-implemented on exact rationals in Lean (pyRound / rintPos / durLen); floats are sent as "
     "their exact rational value, inf / nan as tags with the predicted exception",
@@ -1027,6 +1039,14 @@ PARAMS = {
     "comb.fb": {"delay": "scalar", "alpha": "aux"}, "comb.tau": {"delay": "scalar", "tau": "aux"}, "comb.ff": {"delay": "scalar", "alpha": "aux"},
     "accumulate.func": {"iterable": "source"},
 }
+# methods / calls that hand a stage ANOTHER source (or take another copy) while it may already be running -> hist scenarios
+ATTACH_API = {
+    "Streamix.add": ["Streamix.add"], "Stream.append": ["Stream.append"], "StreamTeeHub.append": ["Stream.append"],
+    "Stream.copy": ["Stream.copy"], "StreamTeeHub.copy": ["StreamTeeHub.copy"], "thub": ["thub.partial"],
+    "LinearFilter.__call__": ["filter.again:fir", "filter.again:iir"], "CascadeFilter.__call__": ["filter.again:cascade"],
+    "ParallelFilter.__call__": ["filter.again:parallel"], "maverage.deque": ["maverage.again"],
+    "ControlStream.value": ["ControlStream", "ControlStream.op", "ControlStream.map", "ControlStream.copy"],
+}
 ELEMENTWISE_EXTRA = ("freq2lag", "lag2freq", "freq_to_lag", "lag_to_freq", "freq2midi", "midi2freq")
 
 
@@ -1161,6 +1181,22 @@ def extra_checks(eng):
         if sorted(params) != sorted(roles):
             bad.append("%s%r is classified as %r" % (name, tuple(params), sorted(roles)))
     yield ("parameters-classified", not bad, "; ".join(bad))
+    # stages that accept a NEW source / consumer while they are consumed: every public method of the stream classes
+    # that takes a source-like argument besides `self` (or copies the object) has a history scenario (`hist` entry)
+    missing = []
+    for name, roles in sorted(PARAMS.items()):
+        cls = name.split(".")[0]
+        if "." in name and cls in ("Stream", "StreamTeeHub", "Streamix") and \
+                (any(r in ("source", "aux") for k, r in roles.items() if k != "self") or name.endswith(".copy")):
+            if not any(h in hist.HOW for h in ATTACH_API.get(name, [])):
+                missing.append(name)
+    for name, hows in sorted(ATTACH_API.items()):
+        if name not in api and name not in ("ControlStream.value",):
+            missing.append(name + " (not public any more)")
+        missing += ["%s -> %s" % (name, h) for h in hows if h not in hist.HOW]
+    for name in sorted(n for n in api if n.split(".")[-1] in ("add", "append", "copy") and n not in ATTACH_API):
+        missing.append(name + " (hands a source / takes a copy, no history scenario)")
+    yield ("attach-api-has-histories", not missing, "; ".join(missing))
     # a registry entry that nothing refers to is not tied to the API
     used = set(e for es in COVER.values() for e in es)
     orphan = sorted(n for n in R if n not in used and n not in ("elementwise",)) + sorted("x:" + n for n in X if "x:" + n not in used)
@@ -1695,7 +1731,8 @@ def generate(rng, tier, scale=1):
         for i in range((12 if quick else 150) * scale):
             cases.append({"entry": "two", "how": how, "na": rng.randint(0, 9), "nb": rng.randint(0, 9),
                           "k": rng.choice([1, 3, 6, 9, 12, 14])})
-    return [c for c in _xattach(_attach(cases)) if not _oversized(c)]
+    cases = [c for c in _xattach(_attach(cases)) if not _oversized(c)]
+    return cases + hist.generate(rng, tier, scale)
 
 
 # ----------------------------------------------------------------------------------------------
@@ -1866,6 +1903,8 @@ CASE_TIMEOUT = 4
 
 def impl(c):
     al = _al()
+    if c["entry"] == "hist":
+        return hist.impl(c, al)
     if c["entry"] in ("reads", "ctl"):
         if "need" not in c or "aux_need" not in c or (c["entry"] == "ctl" and "sched" not in c):
             _attach([c])
@@ -1941,6 +1980,8 @@ def impl(c):
 
 
 def request(c):
+    if c["entry"] == "hist":
+        return hist.request(c)
     if c["entry"] == "ctl":
         return {"entry": "reads", "chain": _model_chain(c), "n": c["need"] + 8, "k": c["k"], "aux": _aux_req(c)}
     if c["entry"] == "reads":
@@ -2040,6 +2081,8 @@ def _diff_ctl(c, io, drv, which):
 
 def compare(c, io, drv):
     out = []
+    if c["entry"] == "hist":
+        return hist.compare(c, io, drv)
     if c["entry"] == "reads":
         if drv["construct"] != 0 or drv["spec0"] != 0:
             out.append(("model", "model reads at construction"))
@@ -2096,6 +2139,8 @@ def compare(c, io, drv):
 
 
 def nontrivial(c, io):
+    if c["entry"] == "hist":
+        return hist.nontrivial(c, io)
     if c["entry"] in ("reads", "ctl"):
         return io.get("outs", 0) > 0
     if c["entry"] == "probe":
@@ -2105,6 +2150,8 @@ def nontrivial(c, io):
 
 def tally(eng, c, io):
     eng.count("entry", c["entry"])
+    if c["entry"] == "hist":
+        return hist.tally(eng, c, io)
     if c["entry"] == "ctl":
         el = c["chain"][0]
         eng.count("ctl_stage", el["st"])
@@ -2252,6 +2299,12 @@ def _param_cands(c):
 
 def shrink(c):
     """Few, strongly smaller candidates per round: single stages first, then k, then parameters."""
+    if c["entry"] == "hist":
+        _SHRINK_CALLS[0] += 1
+        if _SHRINK_CALLS[0] <= SHRINK_BUDGET:
+            for x in hist.shrink(c):
+                yield x
+        return
     if c["entry"] == "probe":
         _SHRINK_CALLS[0] += 1
         if _SHRINK_CALLS[0] > SHRINK_BUDGET:
@@ -2379,6 +2432,8 @@ def neighbours(c):
 
 def classify(c, io, drv):
     """<blamed stage>:<what fails> - coarse on purpose: one signature per stage and failure kind."""
+    if c["entry"] == "hist":
+        return hist.classify(c, io, drv)
     if c["entry"] == "ctl":
         st = c["chain"][0]["st"]
         if "err" in io or "A_err" in io:
